@@ -146,7 +146,8 @@ def new_root(rng):
 def gen_tree(rng, malformed):
     files = {}
     for _ in range(rng.randrange(2, 9)):
-        rel = rand_rel(rng, 0.3 if malformed else 0.0)
+        # names with a second '.' and directories with a '.' belong to the proved domain since fixes/C18-dotted-path.diff
+        rel = rand_rel(rng, 0.3 if malformed else 0.06)
         if rel.endswith("/") or rel == "" or "//" in rel or rel.startswith(".") and "/" not in rel[:2] and rel[:2] == "./":
             continue
         comps = rel.split("/")
@@ -290,7 +291,7 @@ def gen_project(rng, tier):
     out = []
     while len(out) < n:
         # the directory scan only takes *.lua files: everything else on disk is not part of the workspace
-        files = {f: (k if f.endswith(".lua") else "D") for f, k in gen_tree(rng, rng.random() < 0.08).items() if k in "LD"}
+        files = {f: (k if f.endswith(".lua") else "D") for f, k in gen_tree(rng, rng.random() < 0.2).items() if k in "LD"}
         lua = [f for f in files if files[f] == "L"]
         if not lua:
             continue
@@ -325,14 +326,17 @@ def gen_project(rng, tier):
                 stem = stem[2:] if stem.startswith("./") else stem
                 stem = (stem[:-4] if r[0] == "d" else stem.replace(".", "/"))
                 y = rng.random()
-                if y < 0.4:
+                if y < 0.35:
                     f = stem + ".lua"
-                elif y < 0.6:
+                elif y < 0.55:
                     f = stem + "/init.lua"
-                elif y < 0.85:
+                elif y < 0.8:
                     f = rng.choice(DIRS) + "/" + stem + ".lua"
+                elif y < 0.88:
+                    # near misses of the name cut: a second '.' in the name, a '.' in a directory
+                    f = rng.choice([stem + ".test.lua", "v1.2/" + stem + ".lua", stem.replace("/", ".") + ".lua"])
                 else:
-                    f = rand_rel(rng, 0.0)
+                    f = rand_rel(rng, 0.2)
                 comps = f.split("/")
                 if any(c in ("", ".", "..") for c in comps) or f == cur or not f.endswith(".lua"):
                     continue
@@ -386,8 +390,8 @@ LEGS[4].set_valued = True
 TRUSTED = vlib.TRUSTED_COMMON + [
     "oracle: the file system (filefolder.IsFileExist behind FileExistCache) = Section variable disk; the OCaml driver's path normalisation stands for the OS",
     "oracle: the regular-expression extraction of the module string under the cursor in stringutil.GetOpenFileStr (its tail, the candidate list, is modelled: open_list)",
-    "modelled, tied by correspondence: common.FileIndexInfo (Insert/Remove/lookups), calcMatchStrScore, GetBestMatchReferFile (repaired: the best-scored candidate with the least path; the set of best-scored candidates for the code before fixes/C09-deterministic-order.diff is kept under order_fixed = false), FileResult.CheckReferFile, FindOpenFileDefine",
-    "assumed configuration shape: one workspace root, no sub-directories / client ext path, first analysis pass",
+    "modelled, tied by correspondence: common.FileIndexInfo (Insert/Remove/lookups) with common.LuaSuffixIndex / CompleteFilePathToPreStr, calcMatchStrScore, GetBestMatchReferFile / GetBestMatchSuffixFile (the best-scored candidate with the least path), FileResult.CheckReferFile, ReanalyseReferInfo on create/delete events, the tail of stringutil.GetOpenFileStr, FindOpenFileDefine; the variants before each repair are kept in Coq under one boolean per repair (ocaml/c18_run.ml fixed_*)",
+    "assumed configuration shape: one workspace root, no sub-directories / client ext path, first analysis pass; no file-type associations (every workspace file ends in .lua: guard all_lua of the resolution theorems; a workspace with another indexed file type is run but makes no demand, class non_lua_file)",
 ]
 
 
